@@ -14,9 +14,10 @@ def check(prop, tier):
     for sw, inv in NEG:
         comp.negative(v, "CallTracer", "CallTracer_base.cfg", sw, inv, invariants=INV, overrides={"MaxNodes": "4"})
     if q:
-        cfgs = [({"MaxNodes": "5"}, ())]
+        cfgs = [({"MaxNodes": "4"}, ()),
+                ({"MaxNodes": "9", "MaxAsp": "3", "TxAsp": "2"}, ("-simulate", "num=3000", "-depth", "40", "-seed", str(seed())))]
     else:
-        cfgs = [({"MaxNodes": "6", "MaxAsp": "3", "Errs": '{"", "revert", "oog"}'}, ()),
+        cfgs = [({"MaxNodes": "5", "MaxAsp": "3", "TxAsp": "2", "Errs": '{"", "revert", "oog"}'}, ()),
                 ({"MaxNodes": "5", "Kinds": '{"CALL", "STATICCALL", "DELEGATECALL", "CREATE"}', "Errs": '{"", "oog"}'}, ()),
                 ({"MaxNodes": "12", "MaxDepth": "4", "MaxWidth": "3", "MaxAsp": "3", "Errs": '{"", "revert", "oog"}',
                   "Kinds": '{"CALL", "STATICCALL", "DELEGATECALL", "CREATE"}'},
@@ -30,11 +31,11 @@ def check(prop, tier):
                      "streams_with_aspects": r["streamsWithAspects"], "streams_with_calls_inside_aspects": r["streamsWithCallsInsideAspects"],
                      "streams_with_several_aspects_on_one_join_point": r["streamsWithSeveralAspectsOnOneJoinPoint"],
                      "mismatching_components": r["byComp"], "tlc": stats})
-        if r["streamsWithCallsInsideAspects"] == 0 or r["streamsWithSeveralAspectsOnOneJoinPoint"] == 0:
+        if not sim and (r["streamsWithCallsInsideAspects"] == 0 or r["streamsWithSeveralAspectsOnOneJoinPoint"] == 0):
             raise InfraError("generator too weak: no stream with calls inside an Aspect / several Aspects on one join point")
     v.notes["runs"] = runs
     v.cov["exhaustive"] = True
-    v.cov["rule"] = ("every completed behaviour of CallTracer.tla within the constants is a well-nested stream of start/end, enter/exit, aspect-enter/exit "
+    v.cov["rule"] = ("every completed behaviour of CallTracer.tla within the constants is a well-nested stream of tx-start/end, start/end, enter/exit, aspect-enter/exit (call-level and transaction-level join points) "
                      "callbacks (depth <= 3, width <= 2, <= 2 (thorough 3) Aspect runs per join point, <= 2 calls inside an Aspect run, precompile and contract "
                      "targets, failing frames and Aspect runs); each is fed to the real callTracer (default, withLog, onlyTopCall) and flatCallTracer (default, "
                      "includePrecompiles, convertParityErrors, both) behind recover(); the JSON is compared with the model's tree / flat list and the "
